@@ -6,7 +6,7 @@ from pathlib import Path
 
 def regenerate():
     repo = Path(os.environ.get("VERIF_REPO", "/repo"))
-    for name in ("cli_table", "tikz_templates", "subseq_gen", "rmq_gen", "dsu_gen"):
+    for name in ("cli_table", "tikz_templates", "subseq_gen", "rmq_gen", "dsu_gen", "entry_gen"):
         try:
             mod = importlib.import_module(f"translator.{name}")
         except ModuleNotFoundError:
